@@ -464,13 +464,13 @@ func (rn *runner) run(h *history, worker int, only *querySpec) {
 			}
 		}
 	}
-	s := proc.New(proc.Config{Bin: rn.bin, Dir: dir, IP: proc.IP(9, worker), Extra: extra})
+	s := proc.New(proc.Config{BGOff: true, Bin: rn.bin, Dir: dir, IP: proc.IP(9, worker), Extra: extra})
 	if err := s.Start(); err != nil {
 		c.Broken("start: %v", err)
 		return
 	}
 	defer s.Kill()
-	if err := s.WaitReady(90 * time.Second); err != nil {
+	if err := s.WaitReady(180 * time.Second); err != nil {
 		c.Broken("history %d: %v", h.Index, err)
 		return
 	}
